@@ -6,11 +6,16 @@
 (* specification counts how often and by what every task is completed.     *)
 (*                                                                         *)
 (* One action per handler / move of the environment:                       *)
-(*   Send(id, to)    QXmppOutgoingClient::sendIq -> OutgoingIqManager::start*)
-(*                   + StreamAckManager::send (send error -> finish)        *)
-(*   Recv(id,ty,f)   OutgoingIqManager::handleStanza for an element with    *)
-(*                   that id, type ty, sender class f (the driver gives     *)
-(*                   every such element a distinct payload marker)          *)
+(*   Send(i, to, c)  QXmppOutgoingClient::sendIq -> OutgoingIqManager::sendIq*)
+(*                   (an empty id or one already in use is replaced by a    *)
+(*                   fresh one, in the stanza too) -> start, StreamAckManager*)
+(*                   ::send (send error -> finish).  c is the id the caller  *)
+(*                   put into the IQ: "fresh", "empty", or "dup-j" = the id  *)
+(*                   that request j, still outstanding, went out with        *)
+(*   Recv(i, ty, f)  OutgoingIqManager::handleStanza for an element that    *)
+(*                   carries the id request i went on the wire with, type   *)
+(*                   ty, sender class f relative to i's addressee (the       *)
+(*                   driver gives every such element a distinct marker)     *)
 (*   Close(k)        closeSession -> OutgoingIqManager::onSessionClosed     *)
 (*   Open(k)         openSession  -> OutgoingIqManager::onSessionOpened     *)
 (*   Destroy         ~QXmppOutgoingClient -> resetCache, cancelAll          *)
@@ -37,24 +42,34 @@
 (***************************************************************************)
 EXTENDS Naturals, Sequences, FiniteSets, TLC
 
-CONSTANTS Ids, Tos, RFroms, Types, OpenKinds, MaxHist
+CONSTANTS Ids, Tos, RFroms, Types, OpenKinds, MaxHist,
+          Cids,       \* subset of {"fresh", "empty", "dup"}: what the caller may put into the id of a request
+          IdRule      \* "replace": the intended rule (and the code's); "keep": the rule left out -- only to
+                      \* show that WireUnique / RightSender depend on it (IqTrackerKeep.cfg must fail)
 
 VARIABLES up,         \* a session is established
           smOn,       \* stream management enabled on the current / last stream
           canRes,     \* the server granted resumption for it
           resumable,  \* the session that just ended may be resumed by the next Open
           dead,       \* the client object has been destroyed
-          req,        \* [Ids -> [st, to, n, by]]
+          req,        \* [Ids -> [st, to, n, by, c, wire]]
           out,        \* what the last step did: [a, id, cls, passed]
           hist
 
 mvars == <<up, smOn, canRes, resumable, dead, req, out>>
 vars  == <<mvars, hist>>
 
-None == [st |-> "None", to |-> "none", n |-> 0, by |-> "none"]
+\* wire: the id the stanza of the request carries on the wire, as a token: "w-i" = an id nobody else
+\* uses (the caller's fresh id, or the fresh one the library substituted), "" = no id at all.
+\* It is the wire id that the addressee answers, so it is the wire id a request is matched by.
+None == [st |-> "None", to |-> "none", n |-> 0, by |-> "none", c |-> "", wire |-> ""]
+FreshWire(i) == "w-" \o i
+CidChoices(i) == (Cids \ {"dup"}) \cup (IF "dup" \in Cids THEN {"dup-" \o j : j \in Ids \ {i}} ELSE {})
+DupOf(c) == CHOOSE j \in Ids : c = "dup-" \o j
+IsDup(c) == \E j \in Ids : c = "dup-" \o j
 Out0 == [a |-> "Init", id |-> "", cls |-> "", passed |-> 0]
 
-Responses == {"result", "error", "errorBare"}      \* iq types that are responses; "set" is not
+Responses == {"result", "error", "errorBare"}      \* iq types that are responses; "set" and "get" are not
 
 (* sender class of a reply from f to a request addressed to t *)
 Cls(t, f) ==
@@ -92,21 +107,37 @@ CancelRawAbandonChained(r) ==
                    ELSE IF ApiOf(i) = "raw" THEN [r[i] EXCEPT !.st = "Done", !.n = @ + 1, !.by = "local"]
                    ELSE [r[i] EXCEPT !.st = "Abandoned"]]
 
-Send(i, t) ==
+\* the id the stanza goes out with: an empty id or the id of an outstanding request is replaced
+WireFor(i, c) ==
+    IF IdRule = "replace" \/ c = "fresh" THEN FreshWire(i)
+    ELSE IF c = "empty" THEN "" ELSE req[DupOf(c)].wire
+
+Send(i, t, c) ==
     /\ ~dead /\ req[i].st = "None"
+    /\ c \in CidChoices(i)
+    /\ IsDup(c) => req[DupOf(c)].st = "Out"        \* the id of a request that is still outstanding
     /\ IF up
-       THEN req' = [req EXCEPT ![i] = [None EXCEPT !.st = "Out", !.to = t]]
+       THEN req' = [req EXCEPT ![i] = [None EXCEPT !.st = "Out", !.to = t, !.c = c, !.wire = WireFor(i, c)]]
        ELSE \* no session: the stanza cannot be written, the request fails at once with a send error
-            req' = [req EXCEPT ![i] = [None EXCEPT !.st = "Done", !.to = t, !.n = 1, !.by = "local"]]
+            req' = [req EXCEPT ![i] = [None EXCEPT !.st = "Done", !.to = t, !.n = 1, !.by = "local", !.c = c,
+                                                   !.wire = WireFor(i, c)]]
     /\ out' = [a |-> "Send", id |-> i, cls |-> "", passed |-> 0]
-    /\ Log([a |-> "Send", id |-> i, to |-> t])
+    /\ Log([a |-> "Send", id |-> i, to |-> t, c |-> c])
     /\ UNCHANGED <<up, smOn, canRes, resumable, dead>>
 
+\* The element carries req[i].wire and comes from f relative to req[i].to.  The tracker looks the id up:
+\* it finds the outstanding request registered under that id -- request i itself as long as wire ids
+\* are unique (WireUnique), which is what replacing empty / duplicate ids is for.
 Recv(i, ty, f) ==
     /\ ~dead /\ up
     /\ ValidFrom(req[i].to, f)
-    /\ LET hit == req[i].st = "Out" /\ ty \in Responses /\ CodeAccepts(f) IN
-       /\ req' = IF hit THEN [req EXCEPT ![i] = [@ EXCEPT !.st = "Done", !.n = @ + 1, !.by = ByOf(ty)]]
+    /\ LET found == {k \in Ids : req[k].st = "Out" /\ req[k].wire = req[i].wire /\ req[i].wire # ""}
+           k     == IF i \in found THEN i ELSE CHOOSE x \in found : TRUE
+           \* the sender is judged against the addressee of the request that was found
+           hit   == found # {} /\ ty \in Responses
+                    /\ (f = "absent" \/ (f = "exact" /\ req[k].to = req[i].to))
+       IN
+       /\ req' = IF hit THEN [req EXCEPT ![k] = [@ EXCEPT !.st = "Done", !.n = @ + 1, !.by = ByOf(ty)]]
                         ELSE req
        /\ out' = [a |-> "Recv", id |-> i,
                   cls |-> IF ty \in Responses THEN Cls(req[i].to, f) ELSE "not",
@@ -147,7 +178,7 @@ Destroy ==
     /\ UNCHANGED <<smOn, canRes>>
 
 Next ==
-    \/ \E i \in Ids : \E t \in Tos : Send(i, t)
+    \/ \E i \in Ids : \E t \in Tos : \E c \in CidChoices(i) : Send(i, t, c)
     \/ \E i \in Ids : \E ty \in Types : \E f \in RFroms : Recv(i, ty, f)
     \/ \E k \in OpenKinds : Open(k)
     \/ \E k \in {"cut", "user"} : Close(k)
@@ -172,6 +203,9 @@ Pending == {i \in Ids : req[i].st = "Out"}
 AtMostOnce   == \A i \in Ids : P_AtMostOnce(req[i].n)
 DoneOnce     == \A i \in Ids : (req[i].st = "Done" <=> req[i].n = 1) /\ (req[i].st # "Done" => req[i].n = 0)
 NonePending  == P_NonePending(dead \/ (~up /\ ~resumable), Pending)
+\* requests that are outstanding at the same time went out with distinct, non-empty ids
+\* ("reject empty/duplicate ids up front")
+WireUnique   == \A i \in Pending : req[i].wire # "" /\ \A j \in Pending \ {i} : req[j].wire # req[i].wire
 \* a stanza from any other sender (or one that is not a response) never completes or cancels anything
 WrongSender  == [][out'.a = "Recv" /\ out'.cls = "not" => req' = req]_vars
 \* a reply from the addressed entity completes the request there and then
@@ -181,6 +215,7 @@ FreshOpen    == [][out'.a = "Open" /\ out'.cls # "resumed" => Pending' = {}]_var
 TypeOK ==
     /\ up \in BOOLEAN /\ smOn \in BOOLEAN /\ canRes \in BOOLEAN /\ resumable \in BOOLEAN /\ dead \in BOOLEAN
     /\ \A i \in Ids : req[i].st \in {"None", "Out", "Done", "Abandoned"} /\ req[i].by \in {"none", "result", "error", "local"}
+    /\ IdRule \in {"replace", "keep"}
     /\ (resumable => ~up /\ smOn /\ canRes)
 
 Reinit ==
@@ -189,6 +224,13 @@ Reinit ==
     /\ out' = Out0 /\ hist' = <<>>
 
 Bound == Len(hist) <= MaxHist
-View  == mvars
-GenView == <<up, smOn, canRes, resumable, dead, [i \in Ids |-> [st |-> req[i].st, to |-> req[i].to, by |-> req[i].by]]>>
+\* what the caller put into the id is an input, not state of the intended system (the wire id is)
+View  == <<up, smOn, canRes, resumable, dead, [i \in Ids |-> [req[i] EXCEPT !.c = ""]], out>>
+\* the caller's id choice is part of the state for generation: an implementation that mishandles it
+\* has state the specification does not have, and only then do tours continue *after* such a send
+CidKind(c) == IF IsDup(c) THEN "dup" ELSE c
+GenViewNoCid == <<up, smOn, canRes, resumable, dead, [i \in Ids |-> [st |-> req[i].st, to |-> req[i].to, by |-> req[i].by]]>>
+GenView == <<up, smOn, canRes, resumable, dead,
+             [i \in Ids |-> [st |-> req[i].st, to |-> req[i].to, by |-> req[i].by,
+                             c |-> IF req[i].st = "Out" THEN CidKind(req[i].c) ELSE ""]]>>
 =============================================================================
